@@ -1,6 +1,7 @@
 (* Properties.v — the property theorems, and nothing else.  Each is closed by [exact] of a lemma
    proved in the Proofs* files and followed by Print Assumptions. *)
-From Godi Require Import Base GDfs Model Check ProofsRegistry ProofsRuntime.
+From Coq Require Import Permutation.
+From Godi Require Import Base GDfs GKahn GKahnComplete GraphSpec Conc Web Model Check ProofsGraph ProofsConc ProofsWeb ProofsRegistry ProofsRuntime.
 
 (* ---------------------------------------------------------------- C01 *)
 Theorem C01_resolving_a_singleton_is_a_table_read : forall fuel rs h d,
@@ -24,6 +25,16 @@ Theorem C02_cached_scoped_instance_is_returned : forall fuel rs h d i,
   resolve_d (S fuel) rs h d = (rs, ROkV (AInst i)).
 Proof. exact resolve_scoped_cached. Qed.
 Print Assumptions C02_cached_scoped_instance_is_returned.
+
+(* under concurrency the statement is FALSE of the code as it is (finding F13, kept as a known finding): two
+   goroutines that resolve one scoped service in one scope can both construct it.  Decided by computation on
+   the interleaving model; the same schedule is replayed on the implementation by the C02 check. *)
+Theorem C02_concurrent_uniqueness_refuted :
+  exists sched, let s := Conc.run (Conc.init [0; 0]) sched in
+    Conc.get (c_results s) 0 = Some (CRInst 0) /\ Conc.get (c_results s) 1 = Some (CRInst 1) /\
+    thread_done s 0 = true /\ thread_done s 1 = true.
+Proof. exact scoped_unique_concurrent_refuted. Qed.
+Print Assumptions C02_concurrent_uniqueness_refuted.
 
 (* ---------------------------------------------------------------- C03 *)
 Theorem C03_transient_constructed_at_every_request : forall fuel rs h d,
@@ -55,6 +66,46 @@ Theorem C05_build_rejects_cycles : forall c invs ord,
 Proof. exact build_rejects_cycle. Qed.
 Print Assumptions C05_build_rejects_cycles.
 
+Theorem C05_reference_verdict_exact_on_every_history : forall ops,
+  acyclic (grun ops) = true <-> forall u, In u (dg_nodes (grun ops)) -> ~ on_cycle (GraphSpec.succ (grun ops)) u.
+Proof. exact acyclic_exact_on_histories. Qed.
+Print Assumptions C05_reference_verdict_exact_on_every_history.
+
+(* ---------------------------------------------------------------- C06 *)
+(* Kahn's algorithm as coded (counters, FIFO queue, Dependents in any order, initial queue in any
+   order): whenever it emits as many nodes as there are, the result lists every node exactly once
+   with all dependencies of a node before it *)
+Theorem C06_topological_sort_sound : forall (nodes : list nat) (deps dependents : nat -> list nat),
+  (forall c d, In c nodes -> In d (dependents c) -> In d nodes) ->
+  (forall c d, In c nodes -> In d nodes -> occ (dependents c) d = occ (deps d) c) ->
+  forall (fuel : nat) (q0 : list nat),
+  NoDup q0 -> (forall x, In x q0 -> In x nodes /\ deps x = nil) ->
+  let r := loop dependents fuel (cnt0 deps) q0 nil in
+  length r = length nodes -> NoDup nodes -> Permutation r nodes /\ ordered deps r.
+Proof. exact kahn_sound. Qed.
+Print Assumptions C06_topological_sort_sound.
+
+(* and on an acyclic graph it cannot get stuck before every node is emitted *)
+Theorem C06_acyclic_graphs_are_sorted_completely : forall (nodes : list nat) (deps : nat -> list nat),
+  (forall n d, In n nodes -> In d (deps n) -> In d nodes) ->
+  forall L res, topo_closed deps L -> (forall n, In n nodes -> In n L) ->
+  (forall n, In n nodes -> unmet deps n res = 0 -> In n res) ->
+  forall n, In n nodes -> In n res.
+Proof. exact not_stuck. Qed.
+Print Assumptions C06_acyclic_graphs_are_sorted_completely.
+Theorem C06_acyclic_graphs_have_a_certificate : forall (nodes : list nat) (g : nat -> list nat),
+  (forall u v, In u nodes -> In v (g u) -> In v nodes) ->
+  (forall u, In u nodes -> ~ on_cycle g u) ->
+  exists L, topo_closed g L /\ (forall u, In u nodes -> In u L).
+Proof. exact acyclic_certificate. Qed.
+Print Assumptions C06_acyclic_graphs_have_a_certificate.
+
+Theorem C06_accepted_order_is_topological : forall g l, valid_topo g l = true ->
+  NoDup l /\ (forall u, In u l <-> In u (dg_nodes g)) /\
+  forall u d, In u (dg_nodes g) -> In d (GraphSpec.succ g u) -> index_nat d l < index_nat u l.
+Proof. exact valid_topo_sound. Qed.
+Print Assumptions C06_accepted_order_is_topological.
+
 (* ---------------------------------------------------------------- C07 *)
 Theorem C07_build_rejects_captive_dependencies : forall c invs ord,
   has_cycle c = false -> lifetime_conflict c = true -> build c invs ord = (invs, [], inr ELifetime).
@@ -68,7 +119,23 @@ Theorem C08_build_rejects_missing_dependencies : forall c invs ord,
 Proof. exact build_rejects_missing. Qed.
 Print Assumptions C08_build_rejects_missing_dependencies.
 
+(* ---------------------------------------------------------------- C09 *)
+(* for every number of resolving, scope-creating and closing threads, every program they run (well-formed or not)
+   and every interleaving: identities stay unique and bounded, so no instance is ever in two hands at once *)
+Theorem C09_instances_never_shared_between_owners : forall sched s, ProofsConc.Inv s -> ProofsConc.Inv (Conc.run s sched).
+Proof. exact run_inv. Qed.
+Print Assumptions C09_instances_never_shared_between_owners.
+
+Theorem C09_gate_schedules_are_interleavings : forall sched s, exists sch, run_gates s sched = Conc.run s sch.
+Proof. exact run_gates_is_run. Qed.
+Print Assumptions C09_gate_schedules_are_interleavings.
+
 (* ---------------------------------------------------------------- C10 *)
+Theorem C10_no_instance_closed_twice_under_any_interleaving : forall s sched,
+  fresh_state s -> NoDup (c_closed (Conc.run s sched)).
+Proof. exact no_double_close. Qed.
+Print Assumptions C10_no_instance_closed_twice_under_any_interleaving.
+
 Theorem C10_close_closes_each_exactly_once : forall c own l,
   map closed_inst (fst (close_insts c own l)) = map Some l.
 Proof. exact close_insts_exact. Qed.
@@ -97,6 +164,11 @@ Theorem C12_errors_counted_exactly : forall c own l,
 Proof. exact close_insts_errors. Qed.
 Print Assumptions C12_errors_counted_exactly.
 
+Theorem C12_concurrent_closes_close_nothing_twice : forall kinds sched,
+  NoDup (c_closed (Conc.run (Conc.init kinds) sched)).
+Proof. exact no_double_close_init. Qed.
+Print Assumptions C12_concurrent_closes_close_nothing_twice.
+
 (* ---------------------------------------------------------------- C13 *)
 Theorem C13_closed_scope_refuses_resolution : forall w pi h t n,
   h <> 0 -> handle_ok (get_prov w pi) h = true -> sc_open (get_scope (get_prov w pi) h) = false -> t <> T_NIL ->
@@ -116,6 +188,26 @@ Theorem C13_closed_provider_refuses : forall w pi t n,
 Proof. exact closed_provider_refuses. Qed.
 Print Assumptions C13_closed_provider_refuses.
 
+(* ---------------------------------------------------------------- C14 *)
+Theorem C14_closed_scope_holds_nothing : forall fuel ord p h,
+  h < length (p_scopes p) -> sc_open (get_scope p h) = true ->
+  let s' := get_scope (fst (fst (close_scope (S fuel) ord p h))) h in
+  sc_cache s' = [] /\ sc_disp s' = [] /\ sc_open s' = false.
+Proof. exact close_scope_releases. Qed.
+Print Assumptions C14_closed_scope_holds_nothing.
+
+Theorem C14_failed_scope_creation_leaves_no_scope : forall w pi parent ctx w' evs c mods,
+  pi < length (w_provs w) ->
+  create_scope w pi parent ctx = (w', evs, RErr c mods) ->
+  length (p_scopes (get_prov w' pi)) = length (p_scopes (get_prov w pi)).
+Proof. exact failed_create_scope_leaves_no_scope. Qed.
+Print Assumptions C14_failed_scope_creation_leaves_no_scope.
+
+Theorem C14_close_never_grows_the_scope_table : forall fuel ord p h,
+  length (p_scopes (fst (fst (close_scope fuel ord p h)))) = length (p_scopes p).
+Proof. exact close_scope_len. Qed.
+Print Assumptions C14_close_never_grows_the_scope_table.
+
 (* ---------------------------------------------------------------- C15 *)
 Theorem C15_failing_constructor_reported_as_itself : forall recd rs h d io ps rets er rs1 args,
   r_form (ds_reg d) = FCtor io ps rets er ->
@@ -125,7 +217,7 @@ Theorem C15_failing_constructor_reported_as_itself : forall recd rs h d io ps re
   | OErr => snd (create recd rs h d) = RFail (ECtorErr (r_id (ds_reg d)))
   | OPanic => snd (create recd rs h d) = RFail (ECtorPanic (r_id (ds_reg d)))
   | ONil => snd (create recd rs h d) = RFail EValidation
-  | OOk => True
+  | OOk | OCancelBuild => True
   end.
 Proof. exact create_reports_own_failure. Qed.
 Print Assumptions C15_failing_constructor_reported_as_itself.
@@ -137,6 +229,50 @@ Theorem C15_failed_construction_caches_nothing : forall recd rs h d io ps rets e
   rs_p (fst (create recd rs h d)) = rs_p rs1.
 Proof. exact create_failure_caches_nothing. Qed.
 Print Assumptions C15_failed_construction_caches_nothing.
+
+(* ---------------------------------------------------------------- C16 *)
+(* for each of the five integrations, every number of configured middlewares, every option combination and
+   every exit path *)
+Theorem C16_scope_closed_exactly_once : forall s, valid_scen s ->
+  count_w WClosed (mw_trace s) = match w_exit s with XCreateFail => 0 | _ => 1 end.
+Proof. exact closed_exactly_once. Qed.
+Print Assumptions C16_scope_closed_exactly_once.
+
+Theorem C16_middlewares_in_configuration_order : forall s, valid_scen s ->
+  filter is_mw (mw_trace s) =
+  map WMw (seq 0 (match w_exit s with XMwErr i => S i | XCreateFail => 0 | _ => w_nmw s end)).
+Proof. exact middlewares_in_order. Qed.
+Print Assumptions C16_middlewares_in_configuration_order.
+
+Theorem C16_handler_or_error_handler : forall s, valid_scen s ->
+  (count_w WHandler (mw_trace s), count_w WErrHandler (mw_trace s)) =
+  match w_exit s with XMwErr _ | XCreateFail => (0, 1) | _ => (1, 0) end.
+Proof. exact handler_or_error_handler. Qed.
+Print Assumptions C16_handler_or_error_handler.
+
+Theorem C16_closed_after_the_last_callback : forall s, valid_scen s -> after_closed (mw_trace s) = true.
+Proof. exact closed_after_callbacks. Qed.
+Print Assumptions C16_closed_after_the_last_callback.
+
+Theorem C16_model_meets_the_monitor : forall s, valid_scen s -> holds_request s (mw_trace s) = true.
+Proof. exact model_meets_request_property. Qed.
+Print Assumptions C16_model_meets_the_monitor.
+
+Theorem C16_handle_runs_method_iff_resolved : forall s,
+  In HMethod (handle_trace s) <-> h_scope s = true /\ h_registered s = true.
+Proof. exact handle_method_iff. Qed.
+Print Assumptions C16_handle_runs_method_iff_resolved.
+
+Theorem C16_handle_otherwise_exactly_one_error_handler : forall s,
+  ~ In HMethod (handle_trace s) -> handle_trace s = [HScopeErr] \/ handle_trace s = [HResolutionErr].
+Proof. exact handle_exactly_one_error_handler. Qed.
+Print Assumptions C16_handle_otherwise_exactly_one_error_handler.
+
+Theorem C16_handle_swallows_panics_iff_recovery : forall s,
+  h_scope s = true -> h_registered s = true -> h_exit s = HPanic ->
+  (In HPanicHandler (handle_trace s) <-> h_recovery s = true) /\ (In HPanicEscaped (handle_trace s) <-> h_recovery s = false).
+Proof. exact handle_panic_swallowed_iff. Qed.
+Print Assumptions C16_handle_swallows_panics_iff_recovery.
 
 (* ---------------------------------------------------------------- C17 *)
 Theorem C17_rejected_registration_is_atomic : forall c v r c' v' e,
@@ -175,6 +311,26 @@ Theorem C18_reserved_types_never_registered : forall ops w,
   coll_inv (w_coll w) -> coll_inv (w_coll (fst (run_from w ops))).
 Proof. exact registry_invariant. Qed.
 Print Assumptions C18_reserved_types_never_registered.
+
+(* ---------------------------------------------------------------- C19 *)
+Theorem C19_reference_closed_on_every_history : forall ops, wf (grun ops).
+Proof. exact reference_always_closed. Qed.
+Print Assumptions C19_reference_closed_on_every_history.
+
+Theorem C19_rejected_add_leaves_graph_unchanged : forall g u ds,
+  snd (gstep g (GAdd u ds)) = false -> fst (gstep g (GAdd u ds)) = g.
+Proof. exact rejected_add_unchanged. Qed.
+Print Assumptions C19_rejected_add_leaves_graph_unchanged.
+
+Theorem C19_accepted_add_closes_no_cycle : forall g u ds,
+  snd (gstep g (GAdd u ds)) = true -> cycle_from (fst (gstep g (GAdd u ds))) u = false.
+Proof. exact accepted_add_no_cycle_through. Qed.
+Print Assumptions C19_accepted_add_closes_no_cycle.
+
+Theorem C19_acyclicity_answer_exact : forall g, wf g ->
+  (acyclic g = true <-> forall u, In u (dg_nodes g) -> ~ on_cycle (GraphSpec.succ g) u).
+Proof. exact acyclic_exact. Qed.
+Print Assumptions C19_acyclicity_answer_exact.
 
 (* ---------------------------------------------------------------- C20 *)
 Theorem C20_modules_are_their_flat_calls : forall ms st,
